@@ -512,7 +512,7 @@ def _cases(draw):
                 "cols": draw(_colnames),
                 "load": draw(st.sampled_from([None, None, None, "inline", "selectin"])),
                 "own": draw(st.integers(0, 2)) == 0,
-                "poly": draw(st.integers(0, 2)) > 0,
+                "poly": draw(st.booleans()),
             }
         )
     h = {
